@@ -575,6 +575,14 @@ impl NetcodeServer {
         let max_clients = max_clients.min(NETCODE_MAX_CLIENTS);
         log::debug!("Netcode max_clients set to {}", max_clients);
 
+        if max_clients > self.clients.len() {
+            // The limit was raised above the number of slots: add the missing slots,
+            // existing clients keep their slot (client index).
+            let mut clients = std::mem::take(&mut self.clients).into_vec();
+            clients.resize(max_clients, None);
+            self.clients = clients.into_boxed_slice();
+        }
+
         self.max_clients = max_clients;
     }
 
